@@ -1,9 +1,8 @@
-"""C16 - generator faithfulness: decision kernels only.
+"""C16 - generator faithfulness: decision kernels (below) plus the end-to-end run of the real
+generator on a synthetic definition family (kv.props.c16e).
 
-The generator as a whole (pydantic parsing, string formatting of Python source, file
-output, import of the result) is text manipulation and I/O and is outside solver-based
-checking; claimed here are the integer/boolean/character-class KERNELS that decide which
-fields a version has, whether they are nullable/tagged/flexible and how names are cased:
+The kernels are the integer/boolean/character-class decisions of which fields a version
+has, whether they are nullable/tagged/flexible and how names are cased:
 
 * codegen.versions.VersionRange.matches, codegen.parser._BaseField.get_tag /
   is_nullable_for_version, PrimitiveField.is_nullable - on stand-in field models with
@@ -119,6 +118,12 @@ def lemma_primitive_is_nullable(I):
     got = f.is_nullable(v)
     if prim.value in NUMERIC:
         I.check("numeric_primitives_are_never_nullable", I.not_(got) if not isinstance(got, bool) else (got is False))
+        return
+    if prim in (Primitive.bool_, Primitive.error_code):
+        # the wire format has no null bool / error code: a definition declaring one is not well-formed (skipped);
+        # otherwise such a field is never optional - in particular not because it is tagged and ignorable
+        if "nullableVersions" not in kw:
+            I.check("bool_and_error_code_are_never_nullable", I.not_(got) if not isinstance(got, bool) else (got is False))
         return
     spec = I.any([nspec(v), I.all([tspec(v), ignorable, default is None]), prim is Primitive.datetime_i64 and default == "-1"])
     I.check("nullable_iff_definition_says_so_for_this_version", I.iff(got, spec))
@@ -357,17 +362,37 @@ def check(tier):
     total.clauses["generated_index_lists_exactly_the_schema_modules_and_api_keys"] = [1, 0 if ibad else 1]
     if ibad:
         cex.append({"clause": "generated_index_lists_exactly_the_schema_modules_and_api_keys", "witness": {"index_generation": ibad[0]}, "info": {}})
+    from . import c16e
+
+    e2e = c16e.run(tier)
+    total.merge(e2e["stats"])
+    cex.extend(e2e["cex"])
+    inconclusive.extend(e2e["inconclusive"])
     if total.unsupported:
         inconclusive.append(f"{total.unsupported} path(s) could not be followed: {list(total.unsupported_msgs.items())[:4]}")
+    cnt = e2e["counts"]
     cov = runner.mc_coverage(
         total, functions=["codegen.versions.VersionRange.matches", "codegen.parser._BaseField.get_tag/is_nullable_for_version", "codegen.parser.PrimitiveField.is_nullable",
-                          "codegen.generate_schema.filter_version_fields", "codegen.case.to_snake_case", "codegen.generate_index.build_index (concrete run on the shipped package, compared with a package walk)"],
+                          "codegen.generate_schema.filter_version_fields", "codegen.case.to_snake_case", "codegen.generate_index.build_index (concrete run on the shipped package, compared with a package walk)",
+                          "codegen.generate_schema.main() end to end on the synthetic definition family (parse_file, generate_models, write_to_version_module, write_custom_type, exports)",
+                          "kio.serial.entity_writer / entity_reader on the generated classes (symbolic instances)", "codegen.generate_index.build_index with the generated tree attached"],
         bounds={"versions_and_range_bounds": "[-2^31, 2^31]", "range_spellings": ["N-M", "N+", "none"], "primitives": "all members of codegen.parser.Primitive",
-                "filter_version_fields": "3 fields", "to_snake_case": "lengths %s; each character's class (upper/lower/digit/other) symbolic" % lengths},
-        outside=["pydantic parsing of JSON definitions", "default formatting, type-hint emission, dataclass decorator text", "common-struct resolution, index generation, file output",
-                 "the end-to-end clause 'instances of the generated classes encode to the prescribed bytes' (C01/C02 cover the shipped classes instead)", "names longer than %d characters" % max(lengths)],
-        rule="one state = one completed symbolic path of one generator kernel")
-    cov["explanation"] = ("narrow scope: only the generator's decision kernels are executed symbolically (%d paths over %d kernels); the generator's text and I/O layers are outside solver-based checking and are NOT claimed"
-                          % (total.paths, len(rows)))
+                "filter_version_fields": "3 fields", "to_snake_case": "lengths %s; each character's class (upper/lower/digit/other) symbolic" % lengths,
+                "definition_family": "%d definitions in %d groups (hand-crafted + %s seeded pseudo-random), every declared version: %d generator runs, %d structure comparisons" % (
+                    cnt["definitions"], cnt["groups"], "6" if tier == "quick" else "60", cnt["generator_runs"], cnt["structure_checks"]),
+                "generated_class_instances": "per generated top-level class x version: shape schedule (base + deviations, %s), arrays 0..2, every integer over its whole range, payload lengths symbolic per region"
+                                             % ("10 shapes" if tier == "quick" else "150 shapes, depth 2")},
+        outside=["definitions outside the family (the family is finite: the quantifier 'every well-formed definition' is NOT discharged; each family member is decided for all instances within the bounds)",
+                 "constructs that do not occur in the upstream release (recorded under observed_outside_claim, not judged)", "source text layout, docstrings, import order of the generated modules",
+                 "names longer than %d characters in the symbolic naming kernel" % max(lengths)],
+        rule="one state = one completed symbolic path of one generator kernel, or of the real writer+reader on one (generated class, shape)")
+    cov["explanation"] = ("generator decision kernels executed symbolically; plus the real generator run end to end on %d synthetic definitions, the generated classes compared field by field with an independent reading of "
+                          "the JSON and their encodings solver-compared with the definition-driven reference on %d (class, version) pairs over %d shapes (%d symbolic paths in total)"
+                          % (cnt["definitions"], cnt["classes_explored"], cnt["shapes"], total.paths))
     cov["kernels"] = rows
-    return runner.finish("C16", tier, t0, level="other", coverage=cov, assumptions=["A7", "A8"], cex=cex, inconclusive=inconclusive, samples=rows[:5])
+    cov["definition_groups"] = e2e["rows"]
+    cov["observed_outside_claim"] = e2e["observed"]
+    cov["refused_outside_supported_subset"] = cnt["refused_outside_subset"]
+    cov["unfinished_shape_schedules"] = cnt["unfinished_schedules"]
+    cov["traces_validated_against_impl"] = cnt["validated"]
+    return runner.finish("C16", tier, t0, level="other", coverage=cov, assumptions=["A3", "A7", "A8"], cex=cex, inconclusive=inconclusive, samples=rows[:5])
